@@ -37,7 +37,18 @@ def _fr(x):
     return S.rv(S.float_fraction(float(x)))
 
 
-def _oracle_setup(ir, zm, m, nper, deviation, std_override=None):
+def _tv_stds(zm, nper):
+    """time-varying stds supplied as data: the first transition shock and the first measurement shock (if any) change every period"""
+    out = {}
+    s0 = float(STDS[zm.name]["std_" + zm.tshocks[0]])
+    out["std_" + zm.tshocks[0]] = [s0 * f for f in (2.5, 0.5, 1.5, 0.75)[:nper]]
+    if zm.mshocks:
+        w0 = float(STDS[zm.name]["std_" + zm.mshocks[0]])
+        out["std_" + zm.mshocks[0]] = [w0 * f for f in (0.5, 2.0, 1.0, 1.5)[:nper]]
+    return out
+
+
+def _oracle_setup(ir, zm, m, nper, deviation, std_override=None, tv=None):
     sol = m.get_solution()
     T, P, K, Z, H, D = (np.array(getattr(sol, n), dtype=float) for n in "T P K Z H D".split())
     if deviation:
@@ -49,7 +60,11 @@ def _oracle_setup(ir, zm, m, nper, deviation, std_override=None):
         stds.update(std_override)
     su = [stds["std_" + q2n[t.qid]] for t in vec.transition_shocks]
     sw = [stds["std_" + q2n[t.qid]] for t in vec.measurement_shocks]
-    B = kf.BatchOracle(T, P, K, Z, H, D, su, sw, nper, unit_roots=zm.unit_roots)
+    su_t = sw_t = None
+    if tv:
+        su_t = np.array([tv.get("std_" + q2n[t.qid], [s_] * nper) for t, s_ in zip(vec.transition_shocks, su)], dtype=float).reshape(len(su), nper)
+        sw_t = np.array([tv.get("std_" + q2n[t.qid], [s_] * nper) for t, s_ in zip(vec.measurement_shocks, sw)], dtype=float).reshape(len(sw), nper)
+    B = kf.BatchOracle(T, P, K, Z, H, D, su, sw, nper, unit_roots=zm.unit_roots, su_t=su_t, sw_t=sw_t)
     xi = [(q2n[t.qid], t.shift) for t in vec.transition_variables]
     ynames = [q2n[t.qid] for t in vec.measurement_variables]
     unames = [q2n[t.qid] for t in vec.transition_shocks]
@@ -91,16 +106,22 @@ def _tolerance_query(run, claims, assume, tol, timeout_ms=120000, extra=()):
     return run.check_sat(list(assume) + list(extra) + [viol], timeout_ms=timeout_ms, nl=True)
 
 
-def api_vs_oracle(run, ir, zm, m, nper, mask, deviation):
+def api_vs_oracle(run, ir, zm, m, nper, mask, deviation, tv=False):
     ms = _mask_str(mask, len(zm.mvars), nper)
-    base_key = f"{zm.name}:dev={deviation}:T={nper}:mask={ms}"
-    case = dict(kind="api", model=zm.name, deviation=deviation, nper=nper, mask=ms)
+    base_key = f"{zm.name}:dev={deviation}:T={nper}:mask={ms}" + (":time-varying stds" if tv else "")
+    case = dict(kind="api", model=zm.name, deviation=deviation, nper=nper, mask=ms, tv=bool(tv))
     start = ir.qq(2020, 1)
     span = start >> (start + nper - 1)
     db = _data_db(ir, zm, start, nper, mask)
+    tvd = _tv_stds(zm, nper) if tv else None
+    kw_tv = {}
+    if tvd:
+        for n_, vals_ in tvd.items():
+            db[n_] = ir.Series(start=start, values=tuple(vals_))
+        kw_tv = dict(stds_from_data=True)
     try:
         with kf.KalmanLift(ir, zm.mvars) as L, S.Path() as path:
-            out = m.kalman_filter(db, span, deviation=deviation)
+            out = m.kalman_filter(db, span, deviation=deviation, **kw_tv)
     except S.SymbolicBranchError:
         raise
     except Exception as exc:
@@ -109,7 +130,7 @@ def api_vs_oracle(run, ir, zm, m, nper, mask, deviation):
         return
     cache = L.caches[0]
     syms = dict(L.cap["syms"])
-    B, xi, ynames, unames, wnames = _oracle_setup(ir, zm, m, nper, deviation)
+    B, xi, ynames, unames, wnames = _oracle_setup(ir, zm, m, nper, deviation, tv=tvd)
     yrow = {n: r for r, n in enumerate(ynames)}
     obs_all = [(yrow[n], t) for r, n in enumerate(zm.mvars) for t in range(nper) if mask[(r, t)]]
     obs_all.sort(key=lambda o: (o[1], o[0]))
@@ -176,7 +197,7 @@ def api_vs_oracle(run, ir, zm, m, nper, mask, deviation):
     # ---- stds: data-independent, compared numerically (executed obligation)
     key = f"stds:{base_key}"
     run.extra["executed_obligations"] = run.extra.get("executed_obligations", 0) + 1
-    badstd = [(l, a, b) for l, a, b in std_checks if abs(a - b) > 1e-7 * (1 + abs(b))]
+    badstd = [(l, a, b) for l, a, b in std_checks if abs(a - b) > 1e-6 * (1 + abs(b))]      # a zero variance comes out as 1e-14 in floats, its root as 1e-7
     if badstd:
         run.counterexample(key, f"kalman:stds:{zm.name}", f"standard deviations differ from the conditional covariances: {badstd[:3]}", dict(case, kind="api_std"))
     elif std_checks:
@@ -221,6 +242,8 @@ def api_vs_oracle(run, ir, zm, m, nper, mask, deviation):
                            dict(case, kind="api_lik", values={n: [v.numerator, v.denominator] for n, v in vals.items()}))
     else:
         run.unknown(key, f"solver {r}")
+    if tv:
+        return          # the rescale_variance identities are decided on the constant-std structures
     # ---- rescale_variance identities
     key = f"rescale:{base_key}"
     with kf.KalmanLift(ir, zm.mvars) as L2, S.Path() as path2:
@@ -384,7 +407,7 @@ def api_vs_oracle_ur(run, ir, zm, m, nper, mask, deviation):
         run.unknown(key, f"solver {r}")
     key = f"stds:{base_key}"
     run.extra["executed_obligations"] = run.extra.get("executed_obligations", 0) + 1
-    badstd = [(l, a, b) for l, a, b in std_checks if abs(a - b) > 1e-7 * (1 + abs(b))]
+    badstd = [(l, a, b) for l, a, b in std_checks if abs(a - b) > 1e-6 * (1 + abs(b))]      # a zero variance comes out as 1e-14 in floats, its root as 1e-7
     if badstd:
         run.counterexample(key, f"kalman:stds:{zm.name}", f"standard deviations differ from the conditional covariances: {badstd[:3]}", dict(case, kind="api_ur", values={}))
     elif std_checks:
@@ -831,6 +854,17 @@ def main(run):
                     run.unknown(f"api:{zm.name}:{_mask_str(mask, len(zm.mvars), nper)}", exc)
                 except Exception as exc:
                     run.error(f"api:{zm.name}:{_mask_str(mask, len(zm.mvars), nper)}", exc)
+    # time-varying stds supplied as data (stds_from_data=True): full data and one mask per model
+    for name in models:
+        zm, m = _model(ir, name)
+        masks_ = _masks(len(zm.mvars), nper, run.tier)
+        for mask in (masks_[:2] if run.tier == "quick" else masks_[:8]):
+            try:
+                api_vs_oracle(run, ir, zm, m, nper, mask, False, tv=True)
+            except S.SymbolicBranchError as exc:
+                run.unknown(f"api:tv:{zm.name}:{_mask_str(mask, len(zm.mvars), nper)}", exc)
+            except Exception as exc:
+                run.error(f"api:tv:{zm.name}:{_mask_str(mask, len(zm.mvars), nper)}", exc)
     for name in UR_MODELS:
         zm, m = _model(ir, name)
         for mask in _masks(len(zm.mvars), nper, run.tier):
@@ -892,6 +926,12 @@ def replay(case):
     start = ir.qq(2020, 1)
     span = start >> (start + nper - 1)
     db = _data_db(ir, zm, start, nper, mask, values=vals)
+    tvd, kw_tv = None, {}
+    if case.get("tv"):
+        tvd = _tv_stds(zm, nper)
+        for n_, vals_ in tvd.items():
+            db[n_] = ir.Series(start=start, values=tuple(vals_))
+        kw_tv = dict(stds_from_data=True)
     if case["kind"] == "api_option":
         opt = case["option"]
         if opt == "variants_stds":
@@ -949,7 +989,7 @@ def replay(case):
         except Exception as exc:
             return True, f"kalman_filter raises {type(exc).__name__}: {exc}"
         return False, "kalman_filter completes on floats"
-    B, xi, ynames, unames, wnames = _oracle_setup(ir, zm, m, nper, deviation)
+    B, xi, ynames, unames, wnames = _oracle_setup(ir, zm, m, nper, deviation, tv=tvd)
     yrow = {n: r for r, n in enumerate(ynames)}
     obs_all = [(yrow[n], t) for r, n in enumerate(zm.mvars) for t in range(nper) if mask[(r, t)]]
     obs_all.sort(key=lambda o: (o[1], o[0]))
@@ -960,7 +1000,7 @@ def replay(case):
             return float("nan")
         return float(np.asarray(s.get_data(per)).reshape(-1)[0])
     yv = {o: g(db, ynames[o[0]], start + o[1]) for o in obs_all}
-    out, info = m.kalman_filter(db, span, deviation=deviation, return_info=True)
+    out, info = m.kalman_filter(db, span, deviation=deviation, return_info=True, **kw_tv)
     worst, msg = 0.0, "all claims hold"
     if case["kind"] == "api_rescale_contributions":
         out2, info2 = m.kalman_filter(db, span, deviation=deviation, return_info=True, rescale_variance=True)
